@@ -77,6 +77,30 @@ def module_named_field():
     return "nested-field-named-like-module", [money, f], [money, f], ["alias forced only by a NESTED message's field name (Proto.names over all_messages)"]
 
 
+def proto_alias_with_enums():
+    """Names colliding with the module the types file itself imports (`proto`) in files that also declare enums:
+    %proto.py.j2 imports proto-plus as `_proto`, and every class statement and Field call must use that alias."""
+    f1 = File(f"{D}/docs.proto", P)
+    enc = f1.enum("Encoding", ["ENCODING_UNSPECIFIED", ("UTF8", 1), ("LATIN1", 5)])
+    doc = f1.message("Doc")
+    kind = doc.enum("Kind", ["KIND_UNSPECIFIED", "NOTE"])
+    doc.field("name", 1, "string").field("proto", 2, "string").field("enc", 3, ("enum", enc)).field("kind", 4, ("enum", kind), repeated=True)
+    doc.map_field("by_enc", 5, "string", ("enum", enc))
+    f2 = File(f"{D}/shapes.proto", P, deps=[f"{D}/docs.proto"])
+    pm = f2.message("proto")                       # a MESSAGE named proto
+    mode = pm.enum("Mode", ["MODE_UNSPECIFIED", "FAST"])
+    pm.field("mode", 1, ("enum", mode)).field("doc", 2, doc.fqn).field("again", 3, pm.fqn)
+    top = f2.enum("Level", ["LEVEL_UNSPECIFIED", ("HIGH", 3)])
+    user = f2.message("User"); user.field("p", 1, pm.fqn).field("level", 2, ("enum", top), optional=True)
+    f3 = File(f"{D}/holder.proto", P)
+    h = f3.message("Holder")
+    pe = h.enum("proto", ["PROTO_UNSPECIFIED", ("PROTO_X", 1)])   # a nested ENUM named proto
+    inner = h.nested("Inner"); ie = inner.enum("Rank", ["RANK_UNSPECIFIED", "FIRST"])
+    inner.field("rank", 1, ("enum", ie)).field("p", 2, ("enum", pe))
+    h.field("p", 1, ("enum", pe)).field("inner", 2, inner.fqn)
+    return "proto-alias-with-enums", [f1, f2, f3], [f1, f2, f3], ["field / message / nested enum named proto, with top-level and nested enums"]
+
+
 def enum_negative():
     f = File(f"{D}/main.proto", P)
     e = f.enum("Temp", ["TEMP_UNSPECIFIED", ("HOT", 1), ("COLD", -1)])
@@ -88,7 +112,7 @@ def main():
     d = os.path.join(env.VERIF, "corpus", "C02")
     os.makedirs(d, exist_ok=True)
     for name, files, togen, feats in [kitchen_sink(), pb2_clash(False), pb2_clash(True), pb2_clash(False, "fab.baz"),
-                                      rel_misfire(False), rel_misfire(True), module_named_field(),
+                                      rel_misfire(False), rel_misfire(True), module_named_field(), proto_alias_with_enums(),
                                       enum_negative()]:
         req = apigen.request(files, to_generate=[f.proto.name for f in togen], parameter="transport=grpc")
         with open(os.path.join(d, name + ".json"), "w") as fh:
